@@ -3,7 +3,7 @@ from mindsdb_sql.parser.parser import SQLParser
 from mindsdb_sql.parser.ast import *
 from mindsdb_sql.parser.dialects.mysql.lexer import MySQLLexer
 from mindsdb_sql.exceptions import ParsingException
-from mindsdb_sql.parser.utils import ensure_select_keyword_order, JoinType, unescape_string
+from mindsdb_sql.parser.utils import ensure_select_keyword_order, JoinType, to_alias, unescape_string
 
 """
 Unfortunately the rules are not iherited from base SQLParser, because it just doesn't work with Sly due to metaclass magic.
@@ -639,9 +639,9 @@ class MySQLParser(SQLParser):
     def from_table_aliased(self, p):
         entity = p.from_table
         if hasattr(p, 'identifier'):
-            entity.alias = p.identifier
+            entity.alias = to_alias(p.identifier)
         if hasattr(p, 'dquote_string'):
-            entity.alias = Identifier(p.dquote_string)
+            entity.alias = to_alias(p.dquote_string)
         return entity
 
     @_('LPAREN query RPAREN')
@@ -705,9 +705,9 @@ class MySQLParser(SQLParser):
         if col.alias:
             raise ParsingException(f'Attempt to provide two aliases for {str(col)}')
         if hasattr(p, 'dquote_string'):
-            alias = Identifier(p.dquote_string)
+            alias = to_alias(p.dquote_string)
         else:
-            alias = p.identifier
+            alias = to_alias(p.identifier)
         col.alias = alias
         return col
 
